@@ -115,7 +115,12 @@ def load_case(ctx: Ctx):
         spec = dict(spec)
         spec["dispatcher"] = dict(spec["dispatcher"], charging_search_type="nearest_shortest_queue")
     ctx.spec = spec
-    ctx.workdir = Path(tempfile.mkdtemp(prefix="case_", dir=scratch_base()))
+    # one scenario directory per worker process, rewritten for every case: successive simulations in a process then
+    # read different contents from identical file paths (a user editing a scenario in place between runs), which is
+    # what exposes anything remembered per path rather than per simulation
+    ctx.workdir = scratch_base() / f"case_p{os.getpid()}"
+    shutil.rmtree(ctx.workdir, ignore_errors=True)
+    ctx.workdir.mkdir(parents=True)
     yaml_path = write_scenario(spec, ctx.workdir)
     os.chdir(yaml_path.parent)
     with quiet_stdout():
